@@ -31,6 +31,8 @@ type CaseC03 struct {
 	Honest  int        `json:"honest"` // honest writes interleaved after the hostile delivery
 	Chain   int        `json:"chain"`  // length of the hostile chain (the head's own hostile ancestors)
 	Shared  bool       `json:"shared_opts"` // the victim opened a wildcard sibling database first, with the same options value
+	Prior   bool       `json:"prior_legit,omitempty"` // with shared_opts: the attacker's entry in the wildcard sibling was accepted by the victim first
+	Restart bool       `json:"restart,omitempty"` // afterwards the replica restarts and loads its log
 	AC      string     `json:"ac,omitempty"` // "" = ipfs controller (list in the manifest) | "simple" (bundled in-memory controller, list passed by every opener)
 }
 
@@ -45,10 +47,15 @@ func genC03(rt *rapid.T) CaseC03 {
 		Authors: rapid.IntRange(1, 2).Draw(rt, "authors"),
 		PreSync: rapid.Bool().Draw(rt, "presync"),
 		Kind:    rapid.SampledFrom(kinds).Draw(rt, "kind"),
-		Route:   rapid.SampledFrom([]string{"sync", "topic", "direct", "ancestor", "ancestor-refs"}).Draw(rt, "route"),
+		Route:   rapid.SampledFrom([]string{"sync", "topic", "direct", "ancestor", "ancestor-refs", "loadmore", "snapqueue"}).Draw(rt, "route"),
 		Honest:  rapid.IntRange(0, 2).Draw(rt, "honest"),
 		Chain:   rapid.IntRange(1, 3).Draw(rt, "chain"),
 		Shared:  rapid.Bool().Draw(rt, "shared"),
+	}
+	if c.Shared {
+		c.Prior = rapid.Bool().Draw(rt, "prior")
+	} else {
+		c.Restart = rapid.Bool().Draw(rt, "restart")
 	}
 	if c.List != "default" && rapid.IntRange(0, 3).Draw(rt, "simpleAC") == 0 {
 		c.AC, c.Shared = "simple", false
@@ -71,7 +78,7 @@ func execC03x(c CaseC03, eventsOnly bool) *Outcome {
 		}
 	}
 	world.ResetHooks()
-	opts := hostileOpts{Type: c.Type, Authors: c.Authors, VictimWrites: true, SharedOpts: c.Shared, ACType: c.AC}
+	opts := hostileOpts{Type: c.Type, Authors: c.Authors, VictimWrites: true, SharedOpts: c.Shared, PriorLegit: c.Shared && c.Prior, ACType: c.AC}
 	authors := c.Authors
 	switch c.List {
 	case "wildcard":
@@ -85,6 +92,10 @@ func execC03x(c CaseC03, eventsOnly bool) *Outcome {
 	}
 	opts.Authors = authors
 	env, err := newHostileEnv(ctx, opts)
+	if err == world.ErrInconclusive {
+		o.Inconclusive = true
+		return o
+	}
 	if err != nil {
 		return fail("harness: %v", err)
 	}
@@ -280,6 +291,20 @@ func execC03x(c CaseC03, eventsOnly bool) *Outcome {
 			out.Known = keyForgedAuthor
 		}
 		return out
+	}
+	if c.Restart && !c.Shared && c.AC == "" {
+		if err := env.victimRestartClean(ctx); err != nil {
+			if err == world.ErrInconclusive {
+				o.Inconclusive = true
+				return o
+			}
+			out := fail("write list %s, %s entry delivered by %s: %v", c.List, c.Kind, route, err)
+			if (c.Kind == "forged-id" || c.Kind == "forged-identity") && isKnown(keyForgedAuthor) {
+				out.Known = keyForgedAuthor
+			}
+			return out
+		}
+		o.Labels = append(o.Labels, "restart-after")
 	}
 	return o
 }
